@@ -421,3 +421,63 @@ def describe_path(fn, path, limit=14):
     if len(out) > limit:
         out = out[: limit // 2] + ["..."] + out[-limit // 2 :]
     return " -> ".join(out)
+
+
+# ---------------------------------------------------------------------------
+# A11 comparison shape
+
+_SWAP = {"Lt": "Gt", "Le": "Ge", "Gt": "Lt", "Ge": "Le", "Eq": "Eq", "Ne": "Ne"}
+_NEG = {"Lt": "Ge", "Le": "Gt", "Gt": "Le", "Ge": "Lt", "Eq": "Ne", "Ne": "Eq"}
+CMP_CALLS = {
+    "core::cmp::PartialOrd::lt": "Lt",
+    "core::cmp::PartialOrd::le": "Le",
+    "core::cmp::PartialOrd::gt": "Gt",
+    "core::cmp::PartialOrd::ge": "Ge",
+    "core::cmp::PartialEq::eq": "Eq",
+    "core::cmp::PartialEq::ne": "Ne",
+}
+
+
+class Cmp:
+    """One comparison: op(l, r) -> bool local, with its true/false edges."""
+
+    def __init__(self, fn, b, op, l, r, dest, sp, is_call):
+        self.fn = fn
+        self.b = b
+        self.op = op
+        self.l = l
+        self.r = r
+        self.dest = dest
+        self.sp = sp
+        self.is_call = is_call
+        g = track_value(fn, [(dest, "bool", False)])
+        self.true_edges = g.ok
+        self.false_edges = g.fail
+
+    def site(self):
+        p = self.sp.split(":")
+        return "%s:%s" % (p[0], p[1])
+
+    def normalized(self, lhs_pred, rhs_pred, flow):
+        """Return op such that `X op Y` with X matching lhs_pred and Y matching
+        rhs_pred (predicates over origin sets), or None."""
+        lo, ro = flow.of_operand(self.l), flow.of_operand(self.r)
+        if lhs_pred(lo) and rhs_pred(ro):
+            return self.op
+        if lhs_pred(ro) and rhs_pred(lo):
+            return _SWAP[self.op]
+        return None
+
+
+def comparisons(fn):
+    out = []
+    for b, bb in enumerate(fn.bbs):
+        for s in bb["s"]:
+            if s["k"] == "a" and s["r"]["k"] == "bin" and s["r"]["op"] in _SWAP and not s["d"][1]:
+                out.append(Cmp(fn, b, s["r"]["op"], s["r"]["l"], s["r"]["r"], s["d"][0], s["sp"], False))
+        t = bb["t"]
+        if t["k"] == "call" and t.get("f") in CMP_CALLS and len(t["a"]) == 2:
+            dl = _place_local(t["d"])
+            if dl is not None:
+                out.append(Cmp(fn, b, CMP_CALLS[t["f"]], t["a"][0], t["a"][1], dl, t["sp"], True))
+    return out
